@@ -68,6 +68,20 @@ theorem flush_after_apply (s : St) (u : Updates) (h : s.hasCache = true) (hu : u
   have hne : u.isEmpty = false := by cases u <;> simp_all
   simp [applyUpdates, hne, flush, hc]
 
+/-- T1, where the cache is rewritten: installing poll results, installing a looked-up secret
+and shutting the poller down each end in an *unguarded* flush under the store's lock (the
+extractor writes `flush?` for a flush inside an if / case / loop body); construction flushes
+when a declared name had to be stubbed in (`flush?`, the flag `stubDeclared` returns). -/
+theorem fact_flush_points :
+    Facts.storeLockTokens.lookup "Store.applyUpdates" =
+      some ["lock:active", "defer-unlock:active", "install", "notify", "flush"] ∧
+    Facts.storeLockTokens.lookup "Store.lookupSecretInternal" =
+      some ["singleflight", "func{", "request", "lock:active", "defer-unlock:active", "flush", "}"] ∧
+    Facts.storeLockTokens.lookup "Store.run" = some ["lock:active", "defer-unlock:active", "flush"] ∧
+    Facts.storeLockTokens.lookup "NewStore" = some ["flush?"] ∧
+    Facts.runShutdownPath = ["logf", "Lock", "defer Unlock", "if(flushCacheLocked; err != nil){logf}", "return"] := by
+  decide
+
 /-- A cache that is absent, unreadable, not decodable or not of the documented shape is
 ignored as a whole: the store starts exactly as if there were no cache. -/
 theorem all_or_nothing_load : loadCache .malformed = loadCache .absent ∧ loadCache .absent = (∅ : AMap) := ⟨rfl, rfl⟩
